@@ -160,6 +160,57 @@ def run_case(ctx, h, tmp):
                     if d.eGet(attr) != 4242:
                         problems.append(('write-through', f'object {i}.{fname}: a write through the reference did not reach the instance'))
                     break
+        # deletion through a reference acts on the instance: whichever way the target is deleted (through the reference
+        # value or through the instance found by direct navigation), it leaves its container and nothing in the
+        # loaded world refers to it any more
+        if not problems:
+            cands = [(i, fname, f, n, t, want[n]) for (i, fname), (f, coll, vals) in followed.items()
+                     for want in [exp.get((start, i, fname))] if want is not None and len(want) == len(vals)
+                     for n, t in enumerate(vals) if want[n] is not None and want[n][0] != start]
+            if cands:
+                i, fname, f, n, t, (k, j) = rng.choice(cands)
+                d = direct[k][j]
+                was_proxy = hasattr(t, '_proxy_path')
+                how = rng.choice(['through-reference', 'direct-instance'])
+                ctx.count('delete/' + how)
+                everything = [o for kk in direct for o in direct[kk]]
+
+                def holders():
+                    out = []
+                    for o in everything:
+                        if o is d:
+                            continue
+                        for g in o.eClass.eAllReferences():
+                            v = o.eGet(g)
+                            vs = list(v) if g.many else ([v] if v is not None else [])
+                            for x in vs:
+                                # a proxy nobody ever followed is a path, not a reference to the instance: not judged
+                                if (x is d) or (getattr(x, 'resolved', False) and getattr(x, '_wrapped', None) is d):
+                                    out.append((o, g, x))
+                    return out
+                before_holders = holders()
+                rehash = lambda hs: bool(hs) and all(g.many and g.unique and hasattr(x, '_proxy_path') for (_o, g, x) in hs)
+                try:
+                    (t if how == 'through-reference' else d).delete()
+                except Exception as e:
+                    # F-C14-1's root cause (a proxy hashed before it was resolved cannot be found in its ordered set any more)
+                    # also makes the removal itself fail
+                    risky = [hd for hd in before_holders if hd[1].many and hd[1].unique and hasattr(hd[2], '_proxy_path')]
+                    problems.append(('deletion', f'object {i}.{fname}[{n}] deleted ({how}): raised {type(e).__name__}: {str(e)[:60]}',
+                                     'proxy-rehash-after-resolution' if risky and isinstance(e, KeyError) else 'none'))
+                    raise StopIteration
+                still = []
+                if d.eContainer() is not None:
+                    still.append('it still has a container')
+                left = holders()
+                for (o, g, x) in left:
+                    still.append(f'{o.eClass.name}.{g.name} (many={g.many} unique={g.unique} opp={g.eOpposite is not None} via={type(x).__name__}) still refers to it')
+                if still:
+                    trig = 'proxy-rehash-after-resolution' if (d.eContainer() is None and rehash(left)) else \
+                           ('duplicate-in-list-like-reference' if (left and all(g.many and not g.unique for (_o, g, _x) in left)) else 'none')
+                    problems.append(('deletion', f'object {i}.{fname}[{n}] deleted ({how}): ' + '; '.join(still[:3]), trig))
+    except StopIteration:
+        pass
     except Exception as e:
         import traceback
         tb = [l.strip() for l in traceback.format_exc().splitlines() if 'pyecore' in l]
@@ -253,7 +304,7 @@ def run(ctx):
                 'sibling dirs, nested up to depth 3, same file name in different dirs), XMI and JSON, with references across them '
                 '(single, many, mixed with local targets, with and without opposites); all saved, one reloaded in a fresh resource set, '
                 'every reference followed, then the other files navigated directly: same target (resource, position), ==, hash, '
-                'membership, write-through, no extra resource entries. non-trivial & distinct = worlds with at least one cross reference')
+                'membership, write-through, deletion (through the reference value or the direct instance: gone from its container and from every referrer), no extra resource entries. non-trivial & distinct = worlds with at least one cross reference')
     tmp = tempfile.mkdtemp(prefix='verif_c14_')
     try:
         for h in range(n):
